@@ -23,8 +23,27 @@ def run(ctx):
     import os
     for f in glob.glob(os.path.join(common.VERIF, "evidence", "replays", "C04-*.json")):
         os.remove(f)
-    ctx.extract(["gate"])
-    ctx.prove(PROPS, extra_modules=["RotoV.Lemmas.Gate", "RotoV.Model.Gate"])
+    ctx.extract(["gate", "gatesig", "gatereg"])
+    # three theorem modules over three regenerated modules, so that a change to check_roto_type / check_args /
+    # get_function breaks the obligations of C04, a change to force_filtermap_types or TypeInfo::convert exactly
+    # those of C04Sig and a change to a Value::resolve body or the registry exactly those of C04Reg
+    parts = []
+
+    def prove(module, extra=(), targets=()):
+        for k in ("theorems", "nonvacuity_examples", "axioms"):
+            ctx.coverage.pop(k, None)
+        ok = ctx.prove(module, extra_modules=list(extra), extra_targets=targets)
+        if ctx.coverage.get("theorems"):  # prove() overwrites these: report all modules
+            parts.append({k: ctx.coverage.get(k) for k in ("theorems", "nonvacuity_examples", "axioms")})
+        return ok
+
+    prove(PROPS, ["RotoV.Lemmas.Gate", "RotoV.Model.Gate"], targets=("rotov-driver",))
+    prove(PROPS + "Sig")
+    prove(PROPS + "Reg")
+    if parts:
+        ctx.coverage["theorems"] = [t for p in parts for t in p["theorems"]]
+        ctx.coverage["nonvacuity_examples"] = sum(p["nonvacuity_examples"] or 0 for p in parts)
+        ctx.coverage["axioms"] = {k: v for p in parts for k, v in (p["axioms"] or {}).items()}
     if ctx.build_harness("c04"):
         ctx.harness("c04", ["run", ctx.seed, ctx.tier], timeout=3000)
     ctx.trusted += [
